@@ -224,7 +224,6 @@ EvRet(e) ==
            \cup (IF solveok /\ ~StopMaybe THEN {"StopEarly"} ELSE {})
            \cup (IF solveok /\ e.printed_exc THEN {"NoIntExc"} ELSE {})
            \cup (IF e.name = "solve" /\ e.raised = "none" /\ ~e.ret_is_results THEN {"SolveReturnsResults"} ELSE {})
-           \cup (IF slocal > 0 /\ e.sol.nloc = 0 THEN {"LocalCount"} ELSE {})
   IN /\ Note(e, f)
      /\ spc' = "idle"
      /\ UNCHANGED <<scfg, spts, sM, sZ, sminD, strials, scall0, sfault, slocal, tstats>>
